@@ -102,11 +102,11 @@ struct Plan {
     selector_mode: u8,
 }
 
-const VOID_TARGETS: &[&str] = &["meta", "link", "embed", "source", "area", "param"];
+const VOID_TARGETS: &[&str] = &["meta", "link", "embed", "source", "area", "param", "col"];
 
 fn plan_strategy() -> BoxedStrategy<Plan> {
-    (prop::sample::subsequence(PATH_TAGS.to_vec(), 1..=4).prop_shuffle(), pick(vec!["append_child", "prepend_child", "replace"]), 0u8..4, pickw(vec![(3u32, 0u8), (1, 1), (3, 2), (2, 3), (1, 4)]), 0..VOID_TARGETS.len(), prop::bool::weighted(0.5))
-        .prop_map(|(mut path, action, form, selector_mode, vt, real_skeleton)| {
+    (prop::sample::subsequence(PATH_TAGS.to_vec(), 1..=4).prop_shuffle(), pick(vec!["append_child", "prepend_child", "replace"]), 0u8..4, pickw(vec![(3u32, 0u8), (1, 1), (3, 2), (2, 3), (1, 4)]), 0..VOID_TARGETS.len(), prop::bool::weighted(0.5), 0u8..12)
+        .prop_map(|(mut path, action, form, selector_mode, vt, real_skeleton, table)| {
             if real_skeleton {
                 // the usual skeleton: html > head|body > ...
                 let tail: Vec<&'static str> = path.iter().copied().filter(|t| !["html", "head", "body"].contains(t)).collect();
@@ -120,10 +120,11 @@ fn plan_strategy() -> BoxedStrategy<Plan> {
                 let n = path.len();
                 path[n - 1] = VOID_TARGETS[vt];
             }
-            // a hit on the target element itself only exists for html5ever when the element survives fragment parsing
-            let mut selector_mode = selector_mode;
-            if target_form == 3 && ["html", "head", "body"].contains(path.last().unwrap()) && (selector_mode == 2 || selector_mode == 4) {
-                selector_mode = 0;
+            // audit round 2 (D49): a table row as target, its hit on a cell - elements that a fragment parsed as a child of `body`
+            // loses; a hit on a self-closing `body` / `head` / `html` target is no longer avoided either
+            if table == 0 && target_form < 2 {
+                let n = path.len();
+                path[n - 1] = "tr";
             }
             Plan { path, action, target_form, selector_mode }
         })
@@ -139,8 +140,8 @@ fn selector_of(mode: u8) -> Option<String> {
     }
 }
 
-fn hit_child() -> BoxedStrategy<Node> {
-    (pick(vec!["span", "em", "b", "i", "strong"]), style_strategy(), 0usize..5, fill_strategy(1, vec![])).prop_map(|(t, st, h, ch)| Node::Elem(make_elem(t, &st, ch, Some(h), 0))).boxed()
+fn hit_child(cells: bool) -> BoxedStrategy<Node> {
+    (pick(if cells { vec!["td", "th", "td", "th", "td"] } else { vec!["span", "em", "b", "i", "strong"] }), style_strategy(), 0usize..5, fill_strategy(1, vec![])).prop_map(|(t, st, h, ch)| Node::Elem(make_elem(t, &st, ch, Some(h), 0))).boxed()
 }
 
 /// one occurrence of the target element
@@ -151,7 +152,7 @@ fn target_strategy(tag: &'static str, form: u8, want_hit: bool, decoys: Vec<Stri
             .prop_map(move |(st, h, sc)| Node::Elem(make_elem(tag, &st, vec![], if want_hit { Some(h) } else { None }, if form == 3 { sc } else { 0 })))
             .boxed();
     }
-    (style_strategy(), fill_strategy(2, decoys.clone()), fill_strategy(1, decoys), hit_child(), prop::bool::weighted(0.3), 0usize..5)
+    (style_strategy(), fill_strategy(2, decoys.clone()), fill_strategy(1, decoys), hit_child(tag == "tr"), prop::bool::weighted(if tag == "tr" { 0.0 } else { 0.3 }), 0usize..5)
         .prop_map(move |(st, a, b, hit, wrap, h)| {
             let mut children = a;
             if want_hit {
